@@ -106,6 +106,25 @@ func (ft *FakeTarget) serveEcho(rw http.ResponseWriter, r *http.Request) {
 		}
 		return
 	}
+	if strings.HasPrefix(flavour, "parts:") {
+		// the body is delivered piece by piece, each piece flushed and a little later than the one before: the proxy sees
+		// exactly these writes
+		rw.WriteHeader(status)
+		b := patternBody(size, byte(len(id)))
+		for _, ps := range strings.Split(strings.TrimPrefix(flavour, "parts:"), "-") {
+			n, _ := strconv.Atoi(ps)
+			if n > len(b) {
+				n = len(b)
+			}
+			rw.Write(b[:n])
+			b = b[n:]
+			if f, ok := rw.(http.Flusher); ok {
+				f.Flush()
+			}
+			time.Sleep(2 * time.Millisecond)
+		}
+		return
+	}
 	rw.WriteHeader(status)
 	if size > 0 && status != 204 && status != 304 {
 		b := patternBody(size, byte(len(id)))
@@ -516,6 +535,43 @@ func RunBuffer(t *testing.T, scn int, seed int64, n int, rec *Recorder, dir stri
 				kv["seen_at"] = seen.At
 			}
 			w.rec.Emit("bufreq", kv)
+		}
+		// responses that arrive in pieces around the limits: a piece that breaks max-response-body followed by pieces that
+		// would fit again, before and after the spill to disk has begun
+		pi := 0
+		for _, s := range svcs {
+			if !s.bufResp || s.maxResp <= 0 {
+				continue
+			}
+			m, mem := int(s.maxResp), int(s.maxMem)
+			for _, ps := range [][]int{{mem / 2, m, mem + 10}, {mem + 10, m, 10}, {10, m + 1}, {m / 2, m / 2, 1}, {m / 2, m - m/2}, {1, mem, 1}} {
+				pi++
+				id := fmt.Sprintf("p%d", pi)
+				total, strs := 0, []string{}
+				for _, x := range ps {
+					if x < 1 {
+						x = 1
+					}
+					total += x
+					strs = append(strs, strconv.Itoa(x))
+				}
+				rq := rawReq{id: id, method: "POST", path: "/p" + id, host: s.host, body: patternBody(5, 1)}
+				rq.headers = [][2]string{{"X-Verif-Echo", id}, {"X-Verif-Resp", fmt.Sprintf("200;%d;parts:%s", total, strings.Join(strs, "-"))}, {"X-Request-Id", id}}
+				resp, sentAll := w.rawDoSplit(rq, false)
+				synctest.Wait()
+				time.Sleep(20 * time.Millisecond)
+				synctest.Wait()
+				seen := w.echo.get(id)
+				want := patternBody(total, byte(len(id)))
+				kv := KV{"id": id, "req_len": 5, "resp_len": total, "buf_req": s.bufReq, "buf_resp": s.bufResp, "max_req": s.maxReq, "max_resp": s.maxResp,
+					"max_mem": s.maxMem, "sse": false, "status": resp.status, "want_status": 200, "contacted": seen != nil, "req_ok": seen != nil && bytes.Equal(seen.Body, rq.body),
+					"resp_ok": bytes.Equal(resp.body, want) && resp.header.Get("Content-Type") != "", "got_len": len(resp.body), "err_len": len("Internal Server Error\n"),
+					"seen_at": 0, "sent_all_at": sentAll, "split": false, "tmp_left": tmpLeft(), "chunked": false}
+				if seen != nil {
+					kv["seen_at"] = seen.At
+				}
+				w.rec.Emit("bufreq", kv)
+			}
 		}
 		// ways a request can end badly: the spill file must be gone afterwards in every case
 		for i, fl := range []string{"die", "diemid", "die", "diemid"} {
